@@ -878,7 +878,7 @@ def cli_collect(handle, tier, ev, vd):
         shutil.rmtree(handle['work'], ignore_errors=True)
     hist, tot = {}, {c: 0 for c in CLI_NEED}
     seen = {'runs': 0, 'without_request_and_without_lines': 0, 'forced_by_force_field': 0, 'thr_inside': 0, 'thr_outside': 0,
-            'molecule_types_used_more_than_once': 0, 'systems_of_several_molecules': 0, 'free_pairs': 0, 'function_types': set(),
+            'molecule_types_used_more_than_once': 0, 'conformers_with_a_network_each': 0, 'systems_of_several_molecules': 0, 'free_pairs': 0, 'function_types': set(),
             'default_separation_runs': 0}
     rejected = 0
     for share in shares:
@@ -915,6 +915,8 @@ def cli_collect(handle, tier, ev, vd):
                 seen['thr_inside' if row['aim']['inside'] else 'thr_outside'] += 1
             if any(m[1] > 1 for m in row['info']['moltypes']):
                 seen['molecule_types_used_more_than_once'] += 1
+            if row['sc']['layout'] == 'Ww' and row['opts']['ff'] == 'martini22' and len(row['info']['moltypes']) == 2 and row['nbonds']:
+                seen['conformers_with_a_network_each'] += 1
             if row['cls'].get('mols', 0) > 1:
                 seen['systems_of_several_molecules'] += 1
             seen['function_types'] |= set(row['info']['ftypes'])
@@ -934,9 +936,8 @@ def cli_collect(handle, tier, ev, vd):
     if not rejected:
         empty = [c for c in CLI_NEED if not tot[c]]
         empty += [k for k in ('without_request_and_without_lines', 'forced_by_force_field', 'thr_inside', 'thr_outside',
-                              'systems_of_several_molecules') if not seen[k]]
-        if tier != 'quick' and not seen['molecule_types_used_more_than_once']:
-            empty.append('molecule_types_used_more_than_once')
+                              'systems_of_several_molecules', 'molecule_types_used_more_than_once', 'conformers_with_a_network_each')
+                  if not seen[k]]
         if empty:
             raise tlc.MachineryError('vacuous command-line family: nothing in class(es) %s (%s %s)' % (empty, tot, seen))
     return hist
@@ -1022,7 +1023,7 @@ def run(tier, seed, ev, vd):
         if len(offsets) != res.distinct:
             raise tlc.MachineryError('dump has %d states, TLC reports %d' % (len(offsets), res.distinct))
         offsets.append(pos)
-        per = 80 if quick else 1500
+        per = 80 if quick else 1000
         jobs = [f for f in FAMILIES for _ in range(per)] + ['hist'] * (per // 2)
         random.Random(seed).shuffle(jobs)
         ntasks = tlc.NCPU * (1 if quick else 6)
@@ -1104,7 +1105,7 @@ def _run_parts(parts, tier, seed, ev, vd):
     try:
         hist, roles = {}, {}
         if 'trace' in parts:
-            per = 80 if quick else 1500
+            per = 80 if quick else 1000
             jobs = [f for f in FAMILIES for _ in range(per)] + ['hist'] * (per // 2)
             random.Random(seed).shuffle(jobs)
             ntasks = tlc.NCPU * (1 if quick else 6)
